@@ -312,3 +312,46 @@ def judge_header_alone(builder, header, tc):
     if after["ok"]:
         return "HEADER_NOT_STANDALONE", detail
     return "BOTH_REJECT", detail
+
+
+def judge_fwd_unit(builder, tree, unit, tc):
+    """Clause (c): "every *_fwd.hh declaration matches its definition".  For one unit: every
+    non-template `struct X;` that au/units/<unit>_fwd.hh declares in namespace au must be a
+    complete type once au/units/<unit>.hh has been included.  Two compiles of the same tiny TU, with
+    and without the completeness requirement: if it compiles without and not with, what is wrong
+    is the correspondence between the forward declaration and the definition."""
+    import os
+    import re
+
+    fwd = "au/units/%s_fwd.hh" % unit
+    path = os.path.join(_tree.REPO, _tree.CODE_REL, fwd)
+    if not os.path.exists(path):
+        return None, {"unit": unit, "note": "no _fwd.hh"}
+    with open(path, encoding="utf-8", errors="replace") as f:
+        lines = f.read().splitlines()
+    names = []
+    for i, l in enumerate(lines):
+        m = re.match(r"^\s*struct\s+(\w+)\s*;", l)
+        if m and not (i > 0 and lines[i - 1].lstrip().startswith("template")):
+            names.append(m.group(1))
+    detail = {"unit": unit, "toolchain": toolchain_id(tc), "declared": names}
+    if not names:
+        return None, detail
+    head = '#include "%s"\n' % fwd
+    uses = "".join("au::%s *probe_ptr_%d = nullptr;\n" % (n, i) for i, n in enumerate(names))
+    full = '#include "au/units/%s.hh"\n' % unit
+    asserts = "".join('static_assert(sizeof(au::%s) > 0, "declared by %s, defined by %s.hh");\n' % (n, fwd, unit) for n in names)
+    tail = "int main() { return 0; }\n"
+    with_req = builder.syntax_only(head + uses + full + asserts + tail, tc)
+    detail["with_requirement"] = with_req
+    if with_req.get("harness_error"):
+        return "HARNESS", detail
+    if with_req["ok"]:
+        return None, detail
+    without = builder.syntax_only(head + uses + full + tail, tc)
+    detail["without_requirement"] = without
+    if without.get("harness_error"):
+        return "HARNESS", detail
+    if without["ok"]:
+        return "FWD_MISMATCH", detail
+    return "BOTH_REJECT", detail
